@@ -938,3 +938,21 @@ def h_digest(ex, st, recv, args, kwargs, cx):
 EXTERNALS["hashlib.new"] = x_hash_new
 CONTAINER_METHODS[("Hasher", "update")] = h_update
 CONTAINER_METHODS[("Hasher", "digest")] = h_digest
+
+
+def c_fromhex(ex, st, args, kwargs, cx):
+    w, o = ex.w, ex.o
+    g = w.fun("hex_dec", "str", ByteSeq)
+    ok = w.fun("is_hex", "str", "bool")
+    s_ = o.s(args[0])
+    a = st.clone()
+    a.assume(ok(s_))
+    if o.feasible(a):
+        yield a, o.bytes_(g(s_))
+    b = st.clone()
+    b.assume(z3.Not(ok(s_)))
+    if o.feasible(b):
+        yield from ex.raise_new(b, "ValueError")
+
+
+CLASS_CALLS = {("bytes", "fromhex"): c_fromhex}
